@@ -1,78 +1,58 @@
 ----------------------------- MODULE Version_MC -----------------------------
-(* C01, design level: the PMS order on a bounded grammar is a total preorder, the
-   version operators agree with it, and "growing" a version moves it the way PMS
-   intends.  State = a triple of versions; every triple of the grammar is an
-   initial state, so the invariants below are checked for ALL pairs and triples.
-   The transitions grow the first version by one syntactic element (staying in
-   the grammar); the action property Monotone states which way each kind of
-   growth moves the version in the order.                                     *)
-EXTENDS Version_Gram, TLC
+(* C01, design level: the PMS order on a bounded grammar is a total preorder and
+   "growing" a version moves it the way PMS intends.
 
-CONSTANTS VA, VB, VC          \* the three grammars (VC a singleton = pairs only)
-VARIABLES a, b, c
-vars == <<a, b, c>>
+   The grammar Vers is enumerated once (VS) and the comparison of every ordered
+   pair is tabulated with the specification operator (Tab[i][j] = VerCmp(VS[i],
+   VS[j])).  A state is a triple <<ia, ib, ic>> of versions (by their index); every
+   triple of the grammar is an initial state, so the invariants are checked for
+   ALL pairs and triples.  The transitions grow the first version by one
+   syntactic element (staying inside the grammar); the action property Monotone
+   states which way each kind of growth must move the version in the order.
 
-OneVer == {[nums |-> <<<<1>>>>, letter |-> 0, sufs |-> <<>>, rev |-> <<>>]}
+   (The pair laws that need versions outside the grammar live in Version_Laws.) *)
+EXTENDS Version_Gram, TLC, SequencesExt
 
-Init == a \in VA /\ b \in VB /\ c \in VC
+CONSTANT Vers
+VARIABLES ia, ib, ic
+vars == <<ia, ib, ic>>
 
-(* ---- growth steps of a ---- *)
-AppendComp(v, d) == [v EXCEPT !.nums = Append(v.nums, d)]
-AppendSuf(v, s)  == [v EXCEPT !.sufs = Append(v.sufs, s)]
-SetLetter(v, l)  == [v EXCEPT !.letter = l]
-SetRev(v, r)     == [v EXCEPT !.rev = r]
+VS  == SetToSeq(Vers)
+N   == Len(VS)
+Tab == [x \in 1..N |-> [y \in 1..N |-> VerCmp(VS[x], VS[y])]]
 
-GrowComp == \E d \in C9 : a' = AppendComp(a, d)
-GrowSuf  == \E s \in VSuf(VSufKinds, N4) : a' = AppendSuf(a, s)
-GrowLet  == a.letter = 0 /\ \E l \in 1..26 : a' = SetLetter(a, l)
-GrowRev  == \E r \in R4 : VNatCmp(r, a.rev) = 1 /\ a' = SetRev(a, r)
-Next == /\ (GrowComp \/ GrowSuf \/ GrowLet \/ GrowRev)
-        /\ a' \in VA
-        /\ UNCHANGED <<b, c>>
+(* ---- growth of a version by one element ---- *)
+GrowComp(v, w) == \E d \in C9 : w = [v EXCEPT !.nums = Append(v.nums, d)]
+GrowSufP(v, w) == \E n \in N4 : w = [v EXCEPT !.sufs = Append(v.sufs, [k |-> "p", n |-> n])]
+GrowSufM(v, w) == \E s \in VSuf(VSufKinds \ {"p"}, N4) : w = [v EXCEPT !.sufs = Append(v.sufs, s)]
+GrowLet(v, w)  == v.letter = 0 /\ \E l \in 1..26 : w = [v EXCEPT !.letter = l]
+GrowRev(v, w)  == \E r \in R4 : VNatCmp(r, v.rev) = 1 /\ w = [v EXCEPT !.rev = r]
+Up(v, w)   == GrowComp(v, w) \/ GrowSufP(v, w) \/ GrowLet(v, w) \/ GrowRev(v, w)
+Down(v, w) == GrowSufM(v, w)
+\* successor tables, computed once
+UpOf   == [x \in 1..N |-> {y \in 1..N : Up(VS[x], VS[y])}]
+DownOf == [x \in 1..N |-> {y \in 1..N : Down(VS[x], VS[y])}]
+
+Init == ia \in 1..N /\ ib \in 1..N /\ ic \in 1..N
+StepUp   == ia' \in UpOf[ia]   /\ UNCHANGED <<ib, ic>>
+StepDown == ia' \in DownOf[ia] /\ UNCHANGED <<ib, ic>>
+Next == StepUp \/ StepDown
 Spec == Init /\ [][Next]_vars
 
-(* ---- invariants: pairs ---- *)
-TypeOK    == IsVer(a) /\ IsVer(b) /\ IsVer(c)
-RangeOK   == VerCmp(a, b) \in {-1, 0, 1}
-Reflexive == VerCmp(a, a) = 0
+(* ---- invariants ---- *)
+TypeOK    == ia \in 1..N /\ ib \in 1..N /\ ic \in 1..N /\ Tab[ia][ib] \in {-1, 0, 1}
+Reflexive == Tab[ia][ia] = 0
 \* antisymmetry of the preorder: swapping the arguments negates the result
-Antisym   == VerCmp(a, b) = -VerCmp(b, a)
-\* exactly one of < = > holds, and the compound / mirrored operators follow
-OpsAgree ==
-    LET lt == OpHolds("<", a, b)   le == OpHolds("<=", a, b)  eq == OpHolds("=", a, b)
-        ge == OpHolds(">=", a, b)  gt == OpHolds(">", a, b)   ti == OpHolds("~", a, b)
-    IN  /\ (IF lt THEN 1 ELSE 0) + (IF eq THEN 1 ELSE 0) + (IF gt THEN 1 ELSE 0) = 1
-        /\ le = (lt \/ eq)
-        /\ ge = (gt \/ eq)
-        /\ lt = OpHolds(">", b, a)
-        /\ le = OpHolds(">=", b, a)
-        /\ eq = OpHolds("=", b, a)
-        /\ (eq => ti)
-        /\ ti = OpHolds("=", VNoRev(a), VNoRev(b))
-        /\ ti = OpHolds("~", b, a)
-\* the spelling identifies the version (so rendering cases for the code is faithful)
-TextInjective == (VerText(a) = VerText(b)) => (a = b)
-\* omitted numbers read as 0, leading zeros of integers do not matter
-ZeroIsOmitted ==
-    /\ VerCmp(a, SetRev(a, <<0>>)) = (IF VStripLead(a.rev) = <<>> THEN 0 ELSE 1)
-    /\ \A i \in DOMAIN a.sufs : a.sufs[i].n = <<>> =>
-           VerCmp(a, [a EXCEPT !.sufs[i].n = <<0>>]) = 0
-    /\ VerCmp(a, [a EXCEPT !.nums[1] = <<0>> \o a.nums[1]]) = 0
-    /\ VerCmp(a, SetRev(a, <<0>> \o a.rev)) = 0
-
-(* ---- invariants: triples ---- *)
+Antisym   == Tab[ia][ib] = -Tab[ib][ia]
 Transitive ==
-    LET ab == VerCmp(a, b)  bc == VerCmp(b, c)  ac == VerCmp(a, c)
+    LET ab == Tab[ia][ib]  bc == Tab[ib][ic]  ac == Tab[ia][ic]
     IN  (ab <= 0 /\ bc <= 0) => (ac <= 0 /\ ((ab < 0 \/ bc < 0) => ac < 0))
 \* the classes of "=" are congruences: equal versions compare alike with everything
-Congruence == VerCmp(a, b) = 0 => /\ VerCmp(a, c) = VerCmp(b, c)
-                                  /\ \A op \in VerOps : OpHolds(op, c, a) = OpHolds(op, c, b)
+Congruence == Tab[ia][ib] = 0 => Tab[ia][ic] = Tab[ib][ic]
 
-(* ---- action property: growth is monotone the way PMS says ---- *)
-Monotone ==
-    [][ /\ (GrowComp => VerCmp(a', a) = 1)
-        /\ (GrowLet  => VerCmp(a', a) = 1)
-        /\ (GrowRev  => VerCmp(a', a) = 1)
-        /\ (\A s \in VSuf(VSufKinds, N4) : a' = AppendSuf(a, s) =>
-               VerCmp(a', a) = (IF s.k = "p" THEN 1 ELSE -1)) ]_vars
+(* ---- action property: growth is monotone the way PMS says:
+        a further numeric component, a letter, a larger revision and a _p suffix
+        make a version newer, any other suffix makes it older ---- *)
+Monotone == [][ /\ (StepUp   => Tab[ia'][ia] = 1)
+                /\ (StepDown => Tab[ia'][ia] = -1) ]_vars
 =============================================================================
